@@ -1,0 +1,13 @@
+//go:build verif
+// +build verif
+
+package helpers
+
+// Exports for the /verif correspondence harness (build tag "verif" only).
+
+// VerifEncodeWTF8Rune exposes encodeWTF8Rune on a buffer of the given length and returns the bytes written.
+func VerifEncodeWTF8Rune(plen int, r rune) []byte {
+	p := make([]byte, plen)
+	n := encodeWTF8Rune(p, r)
+	return p[:n]
+}
